@@ -570,10 +570,12 @@ class SecopClient(ProxyClient):
                 self._connthread.join()
                 self._connthread = None
         self.disconnect_time = time.time()
-        try:  # make sure txq does not block
-            while not self.txq.empty():
-                self.txq.get(False)
-        except Exception:
+        try:  # make sure txq does not block, and release the callers of the dropped requests
+            while True:
+                entry = self.txq.get(False)
+                if entry is not None:
+                    entry[1].set()
+        except queue.Empty:
             pass
         if self.io:
             self.io.shutdown()
@@ -674,6 +676,9 @@ class SecopClient(ProxyClient):
         # the last item is for the reply
         entry = [request, Event(), None]
         self.txq.put(entry, timeout=3)
+        if not self._running:
+            # disconnected in the meantime: nobody will treat the entry
+            entry[1].set()
         return entry
 
     def get_reply(self, entry):
